@@ -20,7 +20,7 @@ Next ==
      \/ \E k \in Keys, v \in AssignVals : env' = [env EXCEPT ![k] = v] /\ Add([op |-> "assign", k |-> k, v |-> v, obs |-> V(v)])
      \/ \E k \in Keys : env[k] # A!NotSet /\ UNCHANGED env /\ Add([op |-> "dget", k |-> k, obs |-> V(env[k])])
      \/ \E k \in Keys : env[k] \notin ({A!Undef, A!NotSet} \cup FnVals) /\ UNCHANGED env /\ Add([op |-> "eval", k |-> k, obs |-> V(env[k])])
-     \* an EXPRESSION over the variable (k=7) evaluated remotely: the value it sees is the one last stored by either route
+     \* an EXPRESSION over the variable (k*2) evaluated remotely: the value it sees is the one last stored by either route
      \/ \E k \in Keys : env[k] \notin ({A!Undef, A!NotSet} \cup FnVals) /\ UNCHANGED env /\ Add([op |-> "evalx", k |-> k, obs |-> [t |-> "expr", v |-> env[k]]])
      \/ \E k \in Keys : env[k] # A!NotSet /\ UNCHANGED env /\ Add([op |-> "isundef", k |-> k, obs |-> V(IF env[k] = A!Undef THEN 1 ELSE 0)])
      \/ \E v \in CallVals, o \in {"call1", "proxy1"} : UNCHANGED env /\ Add([op |-> o, v |-> v, obs |-> V(v)])
